@@ -141,7 +141,7 @@ func VH_C13_cache_faults() {
 	default:
 		k := vChoice("k", 6)
 		cur = append(append(make([]byte, 0), fin[:k]...), make([]byte, 6-k)...)
-		cur = append(cur, body...)
+		cur = append(cur, fin[6:]...) // the stored body (natively compressed)
 	}
 	if len(cur) > 6 && len(fin) > 6 {
 		vNoCollision(cur[6:], fin[6:])
@@ -150,6 +150,9 @@ func VH_C13_cache_faults() {
 	}
 	vFSWrite(name, cur)
 	vCover("faulted")
+	// observed here, not after Open: whether a header prefix equals the final header depends on digest
+	// values the native hash does not reproduce
+	vObserve("n", n)
 	f, err := Open(dir, h, orsum, odsum)
 	if err != nil {
 		vCover("open-fails")
@@ -164,7 +167,6 @@ func VH_C13_cache_faults() {
 	vAssert("read-ok", rerr == nil)
 	vAssert("reads-what-was-written", vSame(got, body))
 	f.Close()
-	vObserve("n", n)
 }
 
 func vWriteEntry2(dir string, rsum, dsum, body []byte) (string, []byte) {
